@@ -31,11 +31,12 @@ type caseT struct {
 }
 
 type fixture struct {
-	n       *node.Node
-	mhp     uint32 // maxHeightPrecommitted
-	mhc     uint32
-	changeH uint32 // first height with the new parameters
-	tip     uint32
+	n        *node.Node
+	mhp      uint32 // maxHeightPrecommitted
+	mhc      uint32
+	changeH  uint32 // first height with the new parameters
+	changeH2 uint32 // first height with the second set of new parameters
+	tip      uint32
 }
 
 // build a chain with 4 weighted validators, a validator-set change (a 5th validator joins) at height 4,
@@ -48,7 +49,11 @@ func build(cert uint64, blocks int, withChange bool) *fixture {
 	cfg.Set = node.ValSet{Weights: []uint64{1, 2, 0, 0, 0, 3, 4}, Listed: []int{0, 1, 5, 6}, Precommit: 7, Cert: cert}
 	cfg.BatchSize = 5
 	cfg.MaxBlockCache = 50
-	cfg.ValChangeMenu = []node.ValSet{{Weights: []uint64{1, 2, 0, 0, 1, 3, 4}, Listed: []int{0, 1, 5, 6, 4}, Precommit: 8, Cert: cert + 1}}
+	cfg.ValChangeMenu = []node.ValSet{
+		{Weights: []uint64{1, 2, 0, 0, 1, 3, 4}, Listed: []int{0, 1, 5, 6, 4}, Precommit: 8, Cert: cert + 1},
+		// a second, later change (precommit threshold only): two parameter changes can be pending at once
+		{Weights: []uint64{1, 2, 0, 0, 1, 3, 4}, Listed: []int{0, 1, 5, 6, 4}, Precommit: 9, Cert: cert + 1},
+	}
 	n, err := node.New(cfg)
 	if err != nil {
 		panic(err)
@@ -58,13 +63,16 @@ func build(cert uint64, blocks int, withChange bool) *fixture {
 		if i == 4 && withChange {
 			sh.Txs = []node.TxSpec{{Sender: 0, Nonce: 1, Fee: 1, Script: []byte{9, 0}}}
 		}
+		if i == 8 && withChange {
+			sh.Txs = []node.TxSpec{{Sender: 0, Nonce: 2, Fee: 1, Script: []byte{9, 1}}}
+		}
 		if _, err := n.Apply(sh); err != nil {
 			panic(fmt.Sprintf("block %d: %v", i, err))
 		}
 	}
-	f := &fixture{n: n, changeH: 5, tip: uint32(blocks)}
+	f := &fixture{n: n, changeH: 5, changeH2: 9, tip: uint32(blocks)}
 	if !withChange {
-		f.changeH = 1 << 30
+		f.changeH, f.changeH2 = 1<<30, 1<<30
 	}
 	_, f.mhp, f.mhc = n.BFTHeights()
 	return f
@@ -72,6 +80,10 @@ func build(cert uint64, blocks int, withChange bool) *fixture {
 
 // activeAt returns validator indexes and weights active at height h, and the certificate threshold there.
 func (f *fixture) activeAt(h uint32) ([]int, []uint64, uint64) {
+	if h >= f.changeH2 {
+		vs := f.n.Cfg.ValChangeMenu[1]
+		return vs.Listed, vs.Weights, vs.Cert
+	}
 	if h >= f.changeH {
 		vs := f.n.Cfg.ValChangeMenu[0]
 		return vs.Listed, vs.Weights, vs.Cert
@@ -137,8 +149,13 @@ func (f *fixture) lip61(h uint32, signers []int) (bool, string) {
 		return false, "height-above-precommitted"
 	}
 	// the block preceding the next validator-set change above maxHeightCertified+1 must be certified first
-	if f.changeH > f.mhc+1 && h > f.changeH-1 {
-		return false, "beyond-next-parameter-change"
+	for _, ch := range []uint32{f.changeH, f.changeH2} { // ascending: the first change above maxHeightCertified+1 bounds the height
+		if ch > f.mhc+1 {
+			if h > ch-1 {
+				return false, "beyond-next-parameter-change"
+			}
+			break
+		}
 	}
 	act, w, thr := f.activeAt(h)
 	for _, s := range signers {
@@ -183,7 +200,7 @@ func main() {
 	}
 	for _, vr := range variants {
 		cert := vr.cert
-		f := build(cert, 16, vr.change)
+		f := build(cert, 22, vr.change)
 		chainID := f.n.Cfg.ChainID
 		r.Sample(map[string]interface{}{"certThreshold": cert, "tip": f.tip, "maxHeightPrecommitted": f.mhp, "maxHeightCertified": f.mhc, "validatorChangeActiveFrom": f.changeH})
 		if vr.change && f.mhp < f.changeH+1 {
@@ -388,7 +405,7 @@ func main() {
 					// LIP-0061: a single commit for every height in (from,to] whose successor starts new BFT parameters
 					// (the block authenticates a validator-set change), and for `to` itself; one per active validator
 					for h := uint32(1); h <= pc; h++ {
-						want := h > from && h <= to && (h == to || h+1 == f.changeH)
+						want := h > from && h <= to && (h == to || h+1 == f.changeH || h+1 == f.changeH2)
 						per := map[string]int{}
 						for _, sc := range pool.Get(h) {
 							per[string(sc.ValidatorAddress())]++
